@@ -128,6 +128,7 @@ struct State {
   int cur_group[64];
   int releasing = -1;           // group whose memory may currently be given back
   const char* ctx = "release";  // what the harness is doing while `releasing` is set
+  int ctxk = 0;                 // 1: destroying the source of a move assignment, 2: of a move construction
   uint32_t seq = 0;
   Res* cur = nullptr;
   std::vector<Res*> zombies;  // unrelated objects living in reused storage
@@ -180,6 +181,18 @@ bool up_of(uintptr_t a, uintptr_t* start, UpRec** rec) {
   *start = it->first; *rec = &it->second;
   return true;
 }
+// Something of content group `g` is given back while another group is being
+// released. After a move the moved blocks must follow the target: if they are
+// given back by the destruction of the moved-from source the move did not
+// transfer them (own class, so that it is not confused with other early frees).
+[[noreturn]] void foreign_release(const char* what, unsigned long addr, int g) {
+  if (S->ctxk == 1)
+    fail("move-assign-not-transferred", "source-destruction", "after `target = std::move(source)` the destruction of the source %s %#lx, which belongs to blocks that were moved to the target and are still in use there", what, addr);
+  if (S->ctxk == 2)
+    fail("move-construct-not-transferred", "source-destruction", "after move construction the destruction of the source %s %#lx, which belongs to blocks that were moved to the new object", what, addr);
+  fail("foreign-release", S->ctx, "%s %s %#lx, which belongs to another resource object (content group %d, releasing %d)", S->ctx, what, addr, g, S->releasing);
+}
+
 int pending_destructors(int group) {
   int n = 0;
   for (auto& o : S->objs) if (o.group == group && o.destroyed == 0) n++;
@@ -213,8 +226,7 @@ void RecPages::deallocate(void** in_pages, size_t num) noexcept {
       fail("page-returned-twice", "page-deallocate", "%s returned page %#lx to the page allocator a second time", S->ctx, (unsigned long)a);
     if (S->releasing < 0)
       fail("early-free", "page-deallocate", "page %#lx returned to the page allocator outside release()/destruction", (unsigned long)a);
-    if (r.group != S->releasing)
-      fail("foreign-release", S->ctx, "%s returned page %#lx, which holds memory of blocks that now belong to another resource object (content group %d, releasing %d)", S->ctx, (unsigned long)a, r.group, S->releasing);
+    if (r.group != S->releasing) foreign_release("returned page", (unsigned long)a, r.group);
     int pend = pending_destructors(r.group);
     if (pend)
       fail("order", "page-before-destructor", "page %#lx was returned while %d registered destructors of the resource had not run yet", (unsigned long)a, pend);
@@ -249,8 +261,7 @@ void RecUp::do_deallocate(void* p, size_t bytes, size_t align) {
     fail("oversize-mismatch", "upstream-deallocate", "oversize block %p was obtained with (bytes=%zu, align=%zu) but returned with (bytes=%zu, align=%zu)", p, r.bytes, r.align, bytes, align);
   if (S->releasing < 0)
     fail("early-free", "upstream-deallocate", "oversize block %p returned to upstream outside release()/destruction", p);
-  if (r.group != S->releasing)
-    fail("foreign-release", S->ctx, "%s returned oversize block %p, which belongs to blocks now owned by another resource object (content group %d, releasing %d)", S->ctx, p, r.group, S->releasing);
+  if (r.group != S->releasing) foreign_release("returned oversize block", (unsigned long)p, r.group);
   int pend = pending_destructors(r.group);
   if (pend)
     fail("order", "oversize-before-destructor", "oversize block %p was returned while %d registered destructors had not run yet", p, pend);
@@ -268,6 +279,7 @@ void on_destroy(Obj* o) {
   ObjRec& r = S->objs[id];
   if (r.p != (uintptr_t)o) fail("destructor", "wrong-pointer", "destructor of object %llu ran on %p, registered at %#lx", (unsigned long long)id, (void*)o, (unsigned long)r.p);
   if (++r.destroyed > 1) fail("destructor", "run-twice", "registered destructor of object %llu ran %d times", (unsigned long long)id, r.destroyed);
+  if (S->releasing != r.group && S->releasing >= 0 && S->ctxk != 0) foreign_release("ran the registered destructor of the object at", (unsigned long)r.p, r.group);
   if (S->releasing != r.group) fail("destructor", "outside-release", "registered destructor of object %llu (content group %d) ran while %s (group %d)", (unsigned long long)id, r.group, S->releasing < 0 ? "no release was in progress" : S->ctx, S->releasing);
 }
 Obj::~Obj() { on_destroy(this); }
@@ -418,7 +430,10 @@ void register_slots(Res& R) {
   // thread id: any access not ordered by happens-before is a `race`.
   R.sh->_resources.for_each([&](Excl* b, Excl* e) {
     for (; b != e; ++b)
-      if (S->slots.insert(b).second) hb_register(b, sizeof(Excl), "thread-local-resource");
+      if (S->slots.insert(b).second) {
+        hb_register(b, sizeof(Excl), "thread-local-resource");
+        if (R.move_constructed) probe("thread_local_resource_created_after_move");
+      }
   });
 }
 void unregister_slots(Res& R) {
@@ -445,6 +460,9 @@ void verify_all(const char* site, Res* extra = nullptr) {
   // accounting: what the resource says it obtained is what the recording allocators handed out
   size_t alloc = space_allocated(*S->cur) + (extra ? space_allocated(*extra) : 0);
   size_t expect = S->pages.out * S->pages.psz + S->up.live_bytes;
+  // (private state read only to name the cause of an observed symptom)
+  if (alloc != expect && S->cur->kind == 0 && S->cur->move_constructed && S->cur->ex->_upstream != &S->up)
+    fail("wrong-upstream", "after-move-construct", "a move-constructed resource obtained memory behind the back of the upstream configured on its source: space_allocated() = %zu but only %llu pages of %zu bytes and %llu oversize bytes were handed out by the configured page allocator and upstream (the move did not carry the upstream over)", alloc, (unsigned long long)S->pages.out, S->pages.psz, (unsigned long long)S->up.live_bytes);
   if (alloc != expect)
     fail("accounting", "space_allocated", "space_allocated() = %zu but %llu pages of %zu bytes and %llu oversize bytes are outstanding (%zu)", alloc, (unsigned long long)S->pages.out, S->pages.psz, (unsigned long long)S->up.live_bytes, expect);
   Group& g = S->groups[(size_t)S->cur->group];
@@ -584,7 +602,7 @@ void do_move_construct(int flags) {
   // the moved-from object is destroyed; nothing that was moved may be given back by that
   int empty = new_group();
   src->group = empty;
-  S->releasing = empty; S->ctx = "destruction of the moved-from source of a move construction";
+  S->releasing = empty; S->ctx = "destruction of the moved-from source of a move construction"; S->ctxk = 2;
   unregister_slots(*src);
   if ((flags & 1) && src->kind != 0) {
     // The storage of the destroyed source is reused for an unrelated resource
@@ -605,7 +623,7 @@ void do_move_construct(int flags) {
     if (src->kind == 0) delete src->ex; else if (src->kind == 1) delete src->sh; else delete src->sw;
     delete src;
   }
-  S->releasing = -1;
+  S->releasing = -1; S->ctxk = 0;
   S->cur = dst;
   S->moved_since_wave = true;
   verify_all("after-move");
@@ -651,11 +669,11 @@ void do_move_assign(int pre, int flags) {
     }
     kill_blocks(L);
   }
-  S->releasing = L; S->ctx = "destruction of the moved-from source of a move assignment";
+  S->releasing = L; S->ctx = "destruction of the moved-from source of a move assignment"; S->ctxk = 1;
   set_crash_site("move-assign-source-destructor");
   destroy_res(src);
   set_crash_site(nullptr);
-  S->releasing = -1;
+  S->releasing = -1; S->ctxk = 0;
   check_group_released(L, false, "move assignment followed by destruction of the source");
   S->cur = dst;
   S->moved_since_wave = true;
@@ -835,6 +853,12 @@ void gen(Rng& r, Plan& p, const GenParams& gp) {
   int cycles = (int)r.range(1, 3);
   int wave = 0;
   size_t next_thread = 1;
+  // a resource that is moved before its first use (returned from a factory,
+  // element of a growing vector): its thread-local parts are created afterwards
+  if (r.chance(1, 6)) {
+    if (r.chance(2, 3)) add(0, K_MOVE_CTOR, 0, (int64_t)r.below(2), 0);
+    else add(0, K_MOVE_ASSIGN, (int64_t)r.below(4), (int64_t)r.below(4), 0);
+  }
   for (int c = 0; c < cycles; c++) {
     if (kind == 0) {
       int n = (int)r.range(4, gp.thorough ? 30 : 20);
@@ -868,7 +892,8 @@ void gen(Rng& r, Plan& p, const GenParams& gp) {
       // keep using the resource after the move
       if (kind == 0) { int n = (int)r.below(5); for (int i = 0; i < n; i++) add_alloc_op(0, 0); }
       else if (r.chance(2, 3) && next_thread <= 10) {
-        int nt = (int)r.range(1, 3);
+        // often more threads than any earlier wave: thread-local resources are created after the move
+        int nt = r.chance(1, 2) ? 4 : (int)r.range(1, 3);
         for (int i = 0; i < nt && next_thread <= 10; i++) {
           size_t t = next_thread++;
           int nops = (int)r.range(1, 4);
